@@ -1,0 +1,59 @@
+//go:build verif_min && !verif && !verif_nogem
+
+package gem
+
+// A copy of verif_export.go for the tag set verif_min (see ../../verif_min_export.go): compiled
+// only with `-tags verif_min`, without verif and without verif_nogem. It adds read-only accessors
+// used by the external verification harness; it changes no existing code.
+
+import "unsafe"
+
+// VerifClassBits returns one bit per class predicate for r, in source order.
+func VerifClassBits(r rune) uint32 {
+	preds := []func(rune) bool{
+		isCbPrepend, isCbCR, isCbLF, isCbControl, isCbExtend,
+		isCbRegionalIndicator, isCbSpacingMark, isCbL, isCbV, isCbT,
+		isCbLV, isCbLVT, isCbZWJ, isExtPicto,
+	}
+	var bits uint32
+	for i, p := range preds {
+		if p(r) {
+			bits |= 1 << uint(i)
+		}
+	}
+	return bits
+}
+
+// VerifShouldBreakAfter exposes shouldBreakAfter.
+func VerifShouldBreakAfter(chars []rune, i int) bool {
+	return shouldBreakAfter(chars[i], chars, i)
+}
+
+// VerifFromRunes builds a String directly from runes (which need not be
+// valid scalar values), with a fresh empty cache cell.
+func VerifFromRunes(r []rune) String {
+	c := make([]rune, len(r))
+	copy(c, r)
+	return String{r: c, gc: new([]int)}
+}
+
+// VerifCache reports the identity, nil-ness and contents of the cache cell.
+func VerifCache(s String) (cell uintptr, hasCell bool, isNil bool, ends []int) {
+	if s.gc == nil {
+		return 0, false, true, nil
+	}
+	cell = uintptr(unsafe.Pointer(s.gc))
+	if *s.gc == nil {
+		return cell, true, true, nil
+	}
+	ends = make([]int, len(*s.gc))
+	copy(ends, *s.gc)
+	return cell, true, false, ends
+}
+
+// VerifRawRunes returns the rune slice without copying semantics hidden.
+func VerifRawRunes(s String) []rune {
+	out := make([]rune, len(s.r))
+	copy(out, s.r)
+	return out
+}
